@@ -175,3 +175,28 @@ Proof.
       assert (idx n m i <> idx n m (S i)) by (apply H; lia). lia. }
   pose proof (Hge (m - 1)%nat ltac:(lia)) as Hl. rewrite idx_last in Hl by lia. lia.
 Qed.
+
+(* ------------------------------------------------------------------ the whole specification at once *)
+Definition strictly_increasing (l : list Z) : Prop := forall i j, (i < j < length l)%nat -> nth i l 0 < nth j l 0.
+Definition non_decreasing (l : list Z) : Prop := forall i j, (i <= j < length l)%nat -> nth i l 0 <= nth j l 0.
+
+Lemma idx_list_spec n m : 1 <= n -> (2 <= m)%nat ->
+  length (idx_list n m) = m
+  /\ (forall i, (i < m)%nat -> 0 <= nth i (idx_list n m) 0 <= n - 1)
+  /\ nth 0 (idx_list n m) 0 = 0 /\ nth (m - 1) (idx_list n m) 0 = n - 1
+  /\ non_decreasing (idx_list n m)
+  /\ (strictly_increasing (idx_list n m) <-> Z.of_nat m <= n).
+Proof.
+  intros Hn Hm. split; [apply idx_list_length|]. split; [|split; [|split; [|split]]].
+  - intros i Hi. rewrite idx_list_nth by exact Hi. apply idx_range; assumption.
+  - rewrite idx_list_nth by lia. apply idx_first. exact Hm.
+  - rewrite idx_list_nth by lia. apply idx_last. exact Hm.
+  - intros i j Hij. rewrite idx_list_length in Hij. rewrite !idx_list_nth by lia. apply idx_mono; try assumption. lia.
+  - split.
+    + intros Hs. destruct (Z_le_gt_dec (Z.of_nat m) n) as [H|H]; [exact H|exfalso].
+      destruct (idx_repeat n m Hn Hm ltac:(lia)) as [i [Hi He]].
+      specialize (Hs i (S i)). rewrite idx_list_length in Hs. specialize (Hs ltac:(lia)).
+      rewrite !idx_list_nth in Hs by lia. lia.
+    + intros Hmn i j Hij. rewrite idx_list_length in Hij. rewrite !idx_list_nth by lia.
+      apply idx_strict; try assumption. lia.
+Qed.
